@@ -389,6 +389,10 @@ func (w *c02World) step(tag string) c02StepResult {
 			if e := prev.Status.NetworkInterfaces[c.ENI]; e != nil {
 				if _, ok := e.IPv4[""]; ok {
 					w.efloCollision = true
+					if w.efloCollisionENI == nil {
+						w.efloCollisionENI = map[string]bool{}
+					}
+					w.efloCollisionENI[c.ENI] = true
 				}
 			}
 		}
@@ -503,9 +507,10 @@ func (w *c02World) step(tag string) c02StepResult {
 	var hard []string
 	for _, m := range mon {
 		switch {
-		case strings.HasPrefix(m.kind, "assign:") && c08EmptyKey(prev, m.kind) && c08Known("C08-eflo-partial-key-collision"):
+		case strings.HasPrefix(m.kind, "assign:") && (c08EmptyKey(prev, m.kind) || w.efloCollidedOn(m.kind)) && c08Known("C08-eflo-partial-key-collision"):
 			// EFLO: half-created addresses are recorded under the empty address key, a second
-			// one replaces nothing and is forgotten
+			// one replaces nothing and is forgotten: the interface holds it in the cloud for
+			// good, also after the surviving placeholder has been unassigned
 			w.c.Label("known:C08-eflo-partial-key-collision")
 			w.trace("    (known C08-eflo-partial-key-collision: %s)", m.msg)
 		case lost != "" && lostEligible && c08Known("C08-lost-write-no-resync"):
@@ -593,6 +598,13 @@ func c08AnyEmptyKey(n *networkv1beta1.Node) bool {
 
 // c08EmptyKey: the record the pass started from holds an address entry under the empty key
 // on the interface named in the monitor kind.
+// efloCollidedOn: the interface named by a monitor kind ("assign:<eni>:<fam>") has had a
+// half-created address overwritten under the empty key earlier in this history.
+func (w *c02World) efloCollidedOn(kind string) bool {
+	parts := strings.Split(kind, ":")
+	return len(parts) == 3 && w.efloCollisionENI[parts[1]]
+}
+
 func c08EmptyKey(n *networkv1beta1.Node, kind string) bool {
 	parts := strings.Split(kind, ":")
 	if len(parts) != 3 {
@@ -1221,8 +1233,10 @@ func (w *c02World) c08Room(f *c08Final, rdma, growOnly bool) (bool, string) {
 		if !rdma && e.Type != aliyunClient.ENITypeSecondary && e.Type != aliyunClient.ENITypeTrunk {
 			continue
 		}
-		ok4 := !n.V4 || len(e.V4) < n.V4Per || (!growOnly && IdlesWithAvailable(r.IPv4) > 0)
-		ok6 := !n.V6 || len(e.V6) < n.V6Per || (!growOnly && IdlesWithAvailable(r.IPv6) > 0)
+		// growing an interface takes addresses from ITS vSwitch: an exhausted one gives none
+		grow := w.c08VSwitchFree(e.VSwitchID) >= 20
+		ok4 := !n.V4 || (grow && len(e.V4) < n.V4Per) || (!growOnly && IdlesWithAvailable(r.IPv4) > 0)
+		ok6 := !n.V6 || (grow && len(e.V6) < n.V6Per) || (!growOnly && IdlesWithAvailable(r.IPv6) > 0)
 		if growOnly { // the idle count is taken on IPv4 when IPv4 is enabled
 			ok6 = ok6 || n.V4
 		}
@@ -1233,21 +1247,27 @@ func (w *c02World) c08Room(f *c08Final, rdma, growOnly bool) (bool, string) {
 	return false, ""
 }
 
+func (w *c02World) c08VSwitchFree(id string) int64 {
+	w.cloud.Lock()
+	defer w.cloud.Unlock()
+	if v := w.cloud.VSwitches[id]; v != nil {
+		return v.Free
+	}
+	return 0
+}
+
+// c08Ample: spare vSwitch capacity - at least one vSwitch option of the node's zone has
+// plenty of free addresses (>= 200). Other options may be exhausted or nearly so: the
+// controller is expected to block a vSwitch the cloud refused and move on to the next.
 func (w *c02World) c08Ample() bool {
 	w.cloud.Lock()
 	defer w.cloud.Unlock()
-	inZone := 0
 	for _, id := range w.spec.ENISpec.VSwitchOptions {
-		v := w.cloud.VSwitches[id]
-		if v.Zone != c02Zone {
-			continue
-		}
-		inZone++
-		if v.Free < 200 {
-			return false
+		if v := w.cloud.VSwitches[id]; v.Zone == c02Zone && v.Free >= 200 {
+			return true
 		}
 	}
-	return inZone > 0
+	return false
 }
 
 // c08CheckConverged: at the fixed point every eligible pod is served and the idle count
@@ -1500,12 +1520,41 @@ func (w *c02World) c08OscillationClass(f *c08Final) string {
 		}
 	}
 	switch {
+	case w.overDemand > 0 && w.c08HiddenIdle(f) != "" && c08Known("C08-exhausted-vswitch-hides-idle"):
+		return "C08-exhausted-vswitch-hides-idle"
 	case w.overDemand > 0 && onlyAddresses && c08Known("C08-greedy-demand-oscillation"):
 		return "C08-greedy-demand-oscillation"
 	case n.ERDMA && rdmaIdle && c08Known("C08-rdma-idle-oscillation"):
 		return "C08-rdma-idle-oscillation"
 	case imbalance && c08Known("C08-dual-stack-imbalance"):
 		return "C08-dual-stack-imbalance"
+	}
+	return ""
+}
+
+// c08HiddenIdle: candidate finding C08-exhausted-vswitch-hides-idle - an interface in use
+// of the normal pool holds idle addresses, but the controller's vSwitch cache says its
+// vSwitch has no address left (exhausted or blocked), so validateENI filters the interface
+// out and assignEniWithOptions does not count its idle addresses: the controller requests
+// addresses / a new interface every pass and adjustPool releases them again. Returns the
+// interface id ("" if none).
+func (w *c02World) c08HiddenIdle(f *c08Final) string {
+	ids := make([]string, 0, len(f.node.Status.NetworkInterfaces))
+	for id := range f.node.Status.NetworkInterfaces {
+		ids = append(ids, id)
+	}
+	sort.Strings(ids)
+	for _, id := range ids {
+		e := f.node.Status.NetworkInterfaces[id]
+		if e.Status != aliyunClient.ENIStatusInUse || e.NetworkInterfaceTrafficMode == networkv1beta1.NetworkInterfaceTrafficModeHighPerformance {
+			continue
+		}
+		if IdlesWithAvailable(e.IPv4)+IdlesWithAvailable(e.IPv6) == 0 {
+			continue
+		}
+		if v, err := w.rec.vswpool.GetByID(w.ctx, w.cloud, e.VSwitchID); err == nil && v.AvailableIPCount <= 0 {
+			return id
+		}
 	}
 	return ""
 }
